@@ -272,11 +272,19 @@ Vector Spherical_Coordinates(double r, double theta, double phi)
 Vector Spherical_Coordinates(double r, double theta, double phi, const Vector& axis)
 {
 	libphysica::Vector ev = axis.Normalized();
-	if(ev[2] == 1.0 || axis.Norm() == 0.0)
+	double aux			  = sqrt(ev[0] * ev[0] + ev[1] * ev[1]);
+	if(axis.Norm() == 0.0 || (aux == 0.0 && ev[2] > 0.0))
 		return Spherical_Coordinates(r, theta, phi);
+	else if(aux == 0.0)
+	{
+		// Axis antiparallel to the z axis: the frame (-x, y, -z) is right-handed about it.
+		Vector rVec = Spherical_Coordinates(r, theta, phi);
+		rVec[0]		= -rVec[0];
+		rVec[2]		= -rVec[2];
+		return rVec;
+	}
 	else
 	{
-		double aux = sqrt(1.0 - pow(ev[2], 2.0));
 
 		double cos_theta = cos(theta);
 		double sin_theta = sqrt(1.0 - cos_theta * cos_theta);
